@@ -320,7 +320,7 @@ fn main() {
         args.seed,
         "random rule trees (depth <= 4: require / amount-of / count-of / all-of / any-of over signature badges, badge resources, \
          non-fungible ids, package-of-direct-caller and global-caller badges; composite any-of / all-of; allow-all / deny-all) as the \
-         minter role of a fresh resource or reached through the owner fallback; random signers, account proofs kept in / popped \
+         minter role of a fresh resource (manifest -> mint) or as its withdrawer role reached through account.withdraw -> vault.take (parent zone + copied global caller), or through the owner fallback; random signers, account proofs kept in / popped \
          from the auth zone, signature proofs dropped, preview with simulated signature proofs; non-trivial = protected rule; \
          distinct by canonical text of rule + placement",
     );
